@@ -11,6 +11,7 @@ names = [
    areItemsNothrowRelocatable (where pvFind only looks at the newest table) the chain never has more than one table."""),
  ('inv_step', "the same as a one-step statement: Inv is preserved by every operation under every failure choice (unless the model says std::terminate)."),
  ('all_findable', "all_findable.  In every state satisfying Inv, pvFind finds exactly the stored keys: no element becomes unreachable, whatever number of generations coexist."),
+ ('all_findable_located', "all_findable with the location spelled out: the triple (generation, bucket index, offset) that pvFind answers with names a table of the chain whose bucket at that index holds k at that offset (first occurrence in Bounds order)."),
  ('traversal_once', "traversal_once.  One GetBegin()..GetEnd() traversal (pvInc/pvMove across buckets and generations) is a permutation of the contents without repetition: every element visited exactly once."),
  ('iterator_traversal_once', "traversal_once for the ITERATOR STATE MACHINE (pvInc / pvMove, HashSet.h:349-383: bucket index, position inside the bucket, switch to mNextBuckets): started at GetBegin() in any state satisfying Inv -- any number of coexisting generations -- it needs exactly mCount increments, visits a duplicate-free permutation of the contents and then equals the end iterator (termination)."),
  ('find_buckets_returns_owner', "pvFindBuckets as coded (HashSet.h:1220-1237: single-table shortcut, else walk the generations newest first, skip those with bucketIndex >= bucket count, test whether the bucket iterator lies in the address range of that bucket) returns the generation in which pvFind found the item -- so pvRemove (which the model routes through it) acts on the right table in every multi-generation state.  Memory-model assumption: item storage of different buckets/generations is disjoint."),
@@ -99,6 +100,13 @@ names = [
  ('limp4_same_code_1_is_4', "... BucketLimP4<1>."),
  ('limp4_symbolic_at_4_is_concrete', "the symbolic translation at maxCount = 4 is the concrete translation that GenFullP4.v / C12's stack reason about."),
  ('limp4_isfull_any_maxcount', "what the shared IsFull says for every maxCount 1..4: the last short-hash byte is below maskEmpty."),
+ ('o2_empty', "the generated empty BucketOpen2N2 bytes represent the model's empty bucket (count only: rel_o2 does not talk about WasFull)."),
+ ('n1_empty', "generated BucketOpenN1::pvSetEmpty represents the model's empty bucket (count only)."),
+ ('rel_table_new', "table level, for ANY bucket relation (rel_o2, rel_n1, rel_p4_bucket, rel_one): the premise `Forall2 rel ds (tbs t)` of the refused_insert_full_iff_generated_IsFull_* theorems is established by a freshly created table from a related empty bucket ..."),
+ ('rel_table_set', "... preserved when bucket i is replaced by a related pair (the shape in which tadd / tremove change a table: setb; combine with the per-bucket *_add / *_remove lemmas) ..."),
+ ('rel_table_clear', "... and by pvClear (clearT)."),
+ ('o2_table_exists', "satisfiability of the premise: EVERY model table whose buckets hold at most 3 items has representing BucketOpen2N2<3> bytes (built from the generated empty state by the generated AddCrt)."),
+ ('n1_table_exists', "the same for BucketOpenN1<maxCount 1..7> (both layouts)."),
  ('same_code_open2n2_policy', "HashBucketOpen2N2<1> and HashBucketOpen2N2<3> translate to the same Gallina (maxCount is a Section variable): one proof covers all instantiations."),
  ('same_code_open_index', "BucketOpen8 and BucketOpen2N2 have the same GetNextBucketIndex."),
  ('concrete_kind_ok', "the hypotheses kind_ok hold for the concrete kinds used by the extracted model (mask start index, linear and triangular probing, exact max-probe bound, both growth policies)."),
@@ -112,7 +120,7 @@ names = [
  ('ex_refused_until_full', "non-vacuity: with every growth refused a 2-bucket Open2N2<3> table accepts insertions up to 6 items through the fallback path, then reports full."),
 ]
 hdr = '''From Coq Require Import ZArith List Bool Permutation.
-From C11 Require Import GrowModel GenTie GenGrow GenFull GenFullP4 GenMove GenSame GenFacts GenFind GenClear.
+From C11 Require Import GrowModel GenTie GenGrow GenFull GenFullP4 GenMove GenSame GenFacts GenFind GenClear TableRel.
 Import ListNotations.
 Local Open Scope Z_scope.
 Set Printing Width 130.
@@ -131,7 +139,7 @@ res = '''(* Property C11 -- theorems only.  Each is closed by `exact <lemma>` an
    UpdateMaxProbe never under-approximates, the growth policy does not shrink / probing reaches every bucket,
    CalcCapacity <= physical size); they are proved below for the kinds used by the extracted model. *)
 From Coq Require Import ZArith List Bool Permutation.
-From C11 Require Import GrowModel GenTie GenGrow GenFull GenFullP4 GenMove GenSame GenFacts GenFind GenClear.
+From C11 Require Import GrowModel GenTie GenGrow GenFull GenFullP4 GenMove GenSame GenFacts GenFind GenClear TableRel.
 Import ListNotations.
 Local Open Scope Z_scope.
 
